@@ -127,7 +127,11 @@ func ParseBackX(path, src string) (out map[string]string, syntaxErr bool, err er
 				alias = true
 			}
 		}
-		out["enum:"+p] = fmt.Sprintf("alias=%v opts=%s", alias, optNames(o))
+		var err []string
+		for _, r := range e.ReservedRange {
+			err = append(err, fmt.Sprintf("%d-%d", r.GetStart(), r.GetEnd())) // inclusive for enums
+		}
+		out["enum:"+p] = fmt.Sprintf("alias=%v rr=%s rn=%s opts=%s", alias, strings.Join(err, ","), strings.Join(dedupe(e.ReservedName), ","), optNames(o))
 		for _, v := range e.Value {
 			var vo proto.Message
 			if v.Options != nil {
